@@ -197,7 +197,11 @@ class LinkContainer(Container):
 
         self._backend.delete(item.id)
 
-    def append(self, item):
+    def _check_appendable(self, item):
+        """
+        Returns the entity to link for 'item', or raises if it cannot be
+        appended to this container.
+        """
         if util.is_uuid(item):
             item = self._inst_item(self._backend.get_by_id(item))
 
@@ -206,14 +210,19 @@ class LinkContainer(Container):
 
         if item not in self._itemstore:
             raise RuntimeError("This item cannot be appended here.")
+        return item
 
+    def append(self, item):
+        item = self._check_appendable(item)
         self._backend.create_link(item, item.id)
 
     def extend(self, items):
         if not isinstance(items, Iterable):
             raise TypeError("{} object is not iterable".format(type(items)))
+        # check everything first: a refused extend must not add a part
+        items = [self._check_appendable(item) for item in items]
         for item in items:
-            self.append(item)
+            self._backend.create_link(item, item.id)
 
     def __getitem__(self, identifier):
         if isinstance(identifier, int):
